@@ -10,4 +10,5 @@ for pid in ids:
     ev = json.load(open(os.path.join(V, 'evidence', pid + '.json')))
     names = list(ev['coverage'].get('obligation_names', [])) + [b['name'] for b in ev['coverage'].get('bounded', [])]
     base[pid] = sorted(set(names)); print(pid, len(base[pid]))
+    base.setdefault('_hashes', {})[pid] = {f['ref']: f.get('sha256_16') for f in ev['coverage'].get('functions_under_contract', [])}
 json.dump(base, open(p, 'w'), indent=0, sort_keys=True)
